@@ -258,6 +258,10 @@ pub fn eval(e: &Expr, s: &MStore) -> Ev {
     },
     Expr::Field(n, f) => match var(n) {
       Ok(SV::Record(fields)) => match fields.iter().find(|(name, _, _)| name == f) { Some((_, _, v)) => Ev::Val(v.clone()), None => Ev::Fail("no-such-field".into()) },
+      // what a column READ returns after rows were appended is evaluation (tables), not isolation: on the
+      // pinned tree `~q := |a<f64> b<f64>| 100 2 |; q += {a: 2, b: 10}; z := q.b` yields [2 0] while q
+      // itself holds [2 10] (DESIGN 12.10) — not predicted; what the definition leaves behind is checked
+      Ok(SV::Table(..)) if s.get(n).map(|b| b.origin.contains("+appended")).unwrap_or(false) => Ev::Unsure,
       Ok(SV::Table(rows, cols)) => match cols.iter().find(|(name, _, _)| name == f) {
         Some((_, k, d)) => Ev::Val(SV::Mat(k.clone(), rows, 1, d.clone())),
         None => Ev::Fail("no-such-column".into()),
@@ -509,7 +513,9 @@ impl Model {
               }
               Some(v2) => {
                 let mut st = s.clone();
-                st.insert(name.clone(), Binding { mutable: *mutable, v: v2.clone(), origin: format!("define<-{}", e.form()), src: e.vars().first().map(|s| s.to_string()) });
+                // (a copy of a table that rows were appended to is such a table)
+                let appended = matches!(e, Expr::Var(src) if s.get(src).map(|b| b.origin.contains("+appended")).unwrap_or(false));
+                st.insert(name.clone(), Binding { mutable: *mutable, v: v2.clone(), origin: format!("define<-{}{}", e.form(), if appended { "+appended" } else { "" }), src: e.vars().first().map(|s| s.to_string()) });
                 let mut v = self.verdict(Must::Ok, After::Store(st), combo);
                 v.ret = Some(v2);
                 v
@@ -639,6 +645,7 @@ impl Model {
               for (cn, _, data) in nc.iter_mut() { data.push(fields.iter().find(|(n, _, _)| n == cn).unwrap().2.clone()); }
               let mut st = s.clone();
               st.get_mut(name).unwrap().v = SV::Table(rows + 1, nc);
+              if !st[name].origin.contains("+appended") { st.get_mut(name).unwrap().origin.push_str("+appended"); }
               return self.verdict(Must::Ok, After::Store(st), combo);
             }
             // `tb += tb2`: the rows of tb2 are appended (copies)
@@ -649,6 +656,7 @@ impl Model {
               for (cn, _, data) in nc.iter_mut() { data.extend(cols2.iter().find(|(n, _, _)| n == cn).unwrap().2.iter().cloned()); }
               let mut st = s.clone();
               st.get_mut(name).unwrap().v = SV::Table(rows + rows2, nc);
+              if !st[name].origin.contains("+appended") { st.get_mut(name).unwrap().origin.push_str("+appended"); }
               return self.verdict(Must::Ok, After::Store(st), combo);
             }
             let defined = match (&cur.v, &val) {
